@@ -63,6 +63,12 @@ def probe(job):
     return {"r": out, "empty_list": len(r) == 0}
 
 
+def probe_seq(job):
+    """one process: the same text searched under several language selections one after the other"""
+    text, sels, base = job
+    return [probe((text, langs, base, True)) for langs in sels]
+
+
 def run(ctx):
     tier = ctx["tier"]
     R = rng("c17")
@@ -96,12 +102,25 @@ def run(ctx):
         langs = [lang] if u < 0.85 else (None if u < 0.93 else [lang, "en"])
         jobs.append((text, langs, R.random() < 0.7, R.random() < 0.3))
     res = pmap(probe, jobs, chunksize=16)
+    # the same text under several language selections in one process (autodetection, its own language, other languages, pairs): what one
+    # selection found out about the text must not leak into the next
+    seq = []
+    hist = {}
+    for text, langs, base, _add in R.sample(jobs, 60 if tier == "quick" else 1500):
+        own = langs[0] if langs else "en"
+        sels = [None, [own], [R.choice(["en", "fr", "es", "ru", "de", "zh", "ja", "uk", "yue"])], [own, "en"], [R.choice(order)], None]
+        R.shuffle(sels)
+        seq.append((text, sels, base))
+    for (text, sels, base), rr in zip(seq, pmap(probe_seq, seq, chunksize=1, force=True)):
+        for k_, (langs, r) in enumerate(zip(sels, rr)):
+            hist[len(jobs)] = sels[:k_]
+            jobs.append((text, langs, base, True)); res.append(r)
     known = load_known("C17")
     viol = []
     kinds = collections.Counter()
     hits = 0
     distinct = set()
-    for (text, langs, base, add), r in zip(jobs, res):
+    for ji, ((text, langs, base, add), r) in enumerate(zip(jobs, res)):
         why = None
         if "exc" in r:
             kinds["exc:" + r["exc"]] += 1
@@ -137,7 +156,8 @@ def run(ctx):
             if why is None:
                 hits += len(r["r"]); distinct.add(text)
         if why:
-            viol.append({"text": text, "languages": langs, "relative_base": base, "add_detected_language": add, "why": why, "observed": r})
+            viol.append({"text": text, "languages": langs, "relative_base": base, "add_detected_language": add, "why": why, "observed": r,
+                         **({"same_text_searched_earlier_in_this_process_with_languages": hist[ji]} if ji in hist else {})})
     # model tie: the Lean model of the search layer against the library, layer by layer (see c17_tie.py)
     tie_mism, tie_stats = [], {}
     if "model-build" not in ctx["broken"]:
